@@ -171,7 +171,9 @@ def run(ctx):
         if a != first[idx][1]:
             cls = inputs[idx][1]
             kf = cls & {"backslash", "long-line"} if not (cls & {"after-end", "truncated", "garbage"}) else cls & {"backslash", "after-end", "long-line", "truncated", "garbage"}
-            if kf:
+            if "backslash" in kf:
+                known["backslash"] += 1          # (whatever else the input is: finding D17 alone explains it)
+            elif kf:
                 for k in kf:
                     known[k] += 1
             else:
